@@ -48,11 +48,16 @@ def ofIval (i : Starcal.Ival) : Interval := ⟨i.start, i.stop, i.closed⟩
 def toNum (i : Interval) : NumList.Interval := ⟨i.start, i.stop, i.closed⟩
 def ofNum (i : NumList.Interval) : Interval := ⟨i.start, i.stop, i.closed⟩
 
-/-- a digit run longer than 18 may leave int64: outside the model (DESIGN 6.4) -/
+/-- does some maximal digit run denote a number beyond int64 (> 2⁶³ − 1)? `strconv.ParseInt` then
+    fails with a range error, which the unbounded-integer model of `parseInt` does not have: such
+    texts are answered `unmodelled` (only totality is compared). Everything up to 2⁶³ − 1 — any number
+    of leading zeros included — is inside the model. -/
 def longDigitRun (cs : List Char) : Bool :=
   let rec go : List Char → Nat → Bool
-    | [], n => n > 18
-    | c :: r, n => if n > 18 then true else if c.isDigit then go r (n + 1) else go r 0
+    | [], v => v > 9223372036854775807
+    | c :: r, v =>
+      if v > 9223372036854775807 then true
+      else if c.isDigit then go r (v * 10 + (c.toNat - 48)) else go r 0
   go cs 0
 
 def resIvs : Res (List Starcal.Ival) → String
